@@ -561,6 +561,10 @@ def lit_stream(ck, lcases, vi):
         covered = lambda f: any(a <= f < b for a, b in t["ranges"])
         bad_frags = [f for f in range(nf) if t["match"][f] and not covered(f)] if not t["scanerr"] else []
         panicked = (t["scanerr"] or "").startswith("panic") or -2 in (t["maybe"] or [])
+        # failing spots of the min/max-rectangle stream (CheckInRange says "cannot be true" for a fragment with a matching row):
+        # nulls play no role there (the rectangle is built from the non-null values), and the converted reading is sound by
+        # C20_minmax_sound, so such a spot is explained as soon as the implementation equals the bits model on the case
+        bad_marks = [f for f, mk in enumerate(t["marks"] or []) if mk[0] == 0 and f < len(t["match"]) and t["match"][f]]
         def keeps(e):
             return e is not None and all(j < len(e[2]) and e[2][j] for j in bad_probes) and all(f < len(e[1]) and e[1][f] for f in bad_frags)
         e8c, e8r = res_cur.get(i), res_rep.get(i)
@@ -569,7 +573,7 @@ def lit_stream(ck, lcases, vi):
         MSG_LIT = "a fragment with a matching row is pruned: a numeric literal of another type than the key column's is stored bit-for-bit as a value of the column's type"
         MSG_NULL = "a fragment with a matching row is pruned: null key values are sorted first by the writer but read as +infinity by the index reader"
         done = False
-        if not panicked and (bad_probes or bad_frags):
+        if not panicked and (bad_probes or bad_frags or bad_marks):
             if ec is not None and ec[0] == 0:
                 # the implementation behaves like the model that stores the literal's bits (null index cell = +inf)
                 if keeps(er):
@@ -954,7 +958,8 @@ def main(ck):
     scases = [t for t in cases if t["in"].get("tag") == "strop"]
     lcases = [t for t in cases if t["in"].get("tag") == "litmix"]
     allcases = cases
-    cases = [t for t in cases if t["in"].get("tag") not in ("strop", "litmix")]
+    ncases = [t for t in cases if t["in"].get("tag") == "notail"]
+    cases = [t for t in cases if t["in"].get("tag") not in ("strop", "litmix", "notail")]
     r = classify(ck, cases, "c")
     if r is None:
         return
@@ -962,6 +967,23 @@ def main(ck):
     sverd, sbroken, sreading = strop_stream(ck, scases, vi)
     r["broken"] += sbroken
     r["verdicts"].update(sverd)
+    # index record without the trailing last-key row (the shape the attached flush writes): direct oracle on Scan only; a
+    # failure is a null-order failure (today's reader) when the case is inside that finding's input signature, else a violation
+    nviol = nknown = 0
+    for t in ncases:
+        if not t["oracle"]:
+            continue
+        nullish = not reader_sorted(t) and any(v is None for row in t["keys"] for v in row[:max(used_keys(t), 1)])
+        if nullish and r["null"] in ("current", "undetermined") and not (t["scanerr"] or "").startswith("panic") and ck.match_finding(F_NULL):
+            ck.known_finding(F_NULL, "a fragment with a matching row is pruned: null key values are sorted first by the writer but read as +infinity by the index reader")
+            nknown += 1
+            continue
+        nviol += 1
+        if nviol <= 3:
+            ck.violation({"kind": "direct-oracle", "what": t["oracle"][:4], "in": t["in"], "case": t["id"], "stream": "notail",
+                          "ranges": t["ranges"], "match": t["match"], "scanerr": t["scanerr"]})
+    r["verdicts"].update({"notail_cases": len(ncases), "notail_known_null": nknown, "notail_violation": nviol})
+    r["verdicts"]["violation"] += nviol
     lverd, lbroken, lreading = lit_stream(ck, lcases, vi)
     r["broken"] += lbroken
     r["verdicts"].update(lverd)
@@ -985,9 +1007,9 @@ def main(ck):
     if r["broken"] and r["verdicts"]["violation"] == 0:
         # a disagreement without a failing input: search a fresh, larger stream with the direct oracle before giving up
         rc, cs2, out = run_harness(ck, binp, ["gen", str(max(3 * n, 1500))], env={"VERIF_SEED": str(ck.seed + 1)})
-        bad = [t for t in cs2 if t["oracle"] and t["in"].get("tag") not in ("strop", "litmix")]
+        bad = [t for t in cs2 if t["oracle"] and t["in"].get("tag") not in ("strop", "litmix", "notail")]
         if bad:
-            classify(ck, [t for t in cs2 if t["in"].get("tag") not in ("strop", "litmix")], "x")   # reports failing inputs outside the signatures
+            classify(ck, [t for t in cs2 if t["in"].get("tag") not in ("strop", "litmix", "notail")], "x")   # reports failing inputs outside the signatures
         for msg, i in r["broken"][:3]:
             ck.broken.append(msg)
         i = r["broken"][0][1]
